@@ -318,6 +318,21 @@ class Formatter:
         return f"@@L{node.lineno}"
 
     @final
+    def escape_str_value(self, value: str) -> str:
+        """Escapes a string value to be placed between double quotes.
+        The escapes used are valid in C, Go and Python alike."""
+        escapes = {"\\": "\\\\", '"': '\\"', "\n": "\\n", "\r": "\\r", "\t": "\\t"}
+        chars: List[str] = []
+        for c in value:
+            if c in escapes:
+                chars.append(escapes[c])
+            elif ord(c) < 0x20 or ord(c) == 0x7F:
+                chars.append("\\{0:03o}".format(ord(c)))
+            else:
+                chars.append(c)
+        return "".join(chars)
+
+    @final
     def format_value(self, value: Value) -> str:
         """Format value to its string representation."""
         if value is True or value is False:
